@@ -30,11 +30,20 @@ VOCABS = {
 
 
 def startswith_literals(fnode) -> Set[str]:
+    """every literal prefix the function tests with startswith: a string, a tuple of strings, or a local / module-level
+    name bound once to either"""
+    from ..canon import Canon
+    c = Canon(fnode) if isinstance(fnode, (ast.FunctionDef, ast.AsyncFunctionDef)) else None
     out = set()
     for n in ast.walk(fnode):
-        if isinstance(n, ast.Call) and isinstance(n.func, ast.Attribute) and n.func.attr == 'startswith' and \
-                n.args and isinstance(n.args[0], ast.Constant) and isinstance(n.args[0].value, str):
-            out.add(n.args[0].value)
+        if isinstance(n, ast.Call) and isinstance(n.func, ast.Attribute) and n.func.attr == 'startswith' and n.args:
+            a = n.args[0]
+            if c is not None and isinstance(a, ast.Name):
+                a = c.resolve(a)
+            elts = a.elts if isinstance(a, (ast.Tuple, ast.List)) else [a]
+            for e in elts:
+                if isinstance(e, ast.Constant) and isinstance(e.value, str):
+                    out.add(e.value)
     return out
 
 
@@ -208,7 +217,10 @@ def strip_rule(ctx, rep, clause):
 
 
 def resolver_tokens(fnode) -> List[str]:
-    """ordered vocabulary tests of a resolver (top-level statements only)"""
+    """ordered vocabulary tests of a resolver (top-level statements only; a dispatch table of (predicate, handler) rows
+    is read as the if-chain it stands for)"""
+    from ..unroll import unroll
+    fnode = unroll(fnode)
     toks = []
     for st in fnode.body:
         if isinstance(st, ast.Assign) and isinstance(st.value, ast.Call) and isinstance(st.value.func, ast.Name) and \
@@ -280,20 +292,42 @@ def dispatch_parity(ctx, rep, clause):
     for fq, callee in (('peptacular.mass_calc:mod_mass', '_parse_mod_mass'),
                        ('peptacular.chem.chem_calc:mod_comp', '_parse_mod_comp')):
         f = program.func(fq)
-        ok = False
-        for n in walk_own(f.node):
-            if isinstance(n, ast.For) and len(n.body) >= 2:
-                txt = ' ; '.join(norm_stmt(s) for s in n.body)
-                if callee + '(' in txt and 'is not None' in txt and any(isinstance(s, ast.If) and
-                                                                        any(isinstance(x, ast.Return) for x in s.body)
-                                                                        for s in n.body):
-                    it = norm_stmt(n.iter)
-                    src = _assigned_expr(f, it)
-                    if "split('|')" in it or (src and "split('|')" in src):
-                        ok = True
+        ok = first_resolvable(f, callee)
         ob(rep, 'SIB-dispatch', fq, "takes the first resolvable '|' alternative", ok,
            'alternatives are tried in written order and the first non-None result is returned',
            "the loop over '|' alternatives no longer returns the first resolvable one", f.loc(), clause)
+
+
+def first_resolvable(f, callee: str) -> bool:
+    """the front end tries the '|' alternatives in written order and hands back the first result that is not None:
+    either a loop over <text>.split('|') that returns from inside an `is not None` test on the callee's result, or
+    next(<results that are not None>, <default>) over a generator of the callee's results in split order"""
+    from ..canon import Canon
+    c = Canon(f.node)
+
+    def over_split(it) -> bool:
+        return "split('|')" in norm_stmt(c.resolve(it))
+
+    for n in walk_own(f.node):
+        if isinstance(n, ast.For) and over_split(n.iter):
+            txt = ' ; '.join(norm_stmt(s) for s in n.body)
+            if callee + '(' in txt and 'is not None' in txt and any(
+                    isinstance(s, ast.If) and any(isinstance(x, ast.Return) for x in s.body) for s in n.body):
+                return True
+        if isinstance(n, ast.Call) and isinstance(n.func, ast.Name) and n.func.id == 'next' and n.args:
+            g = c.resolve(n.args[0])
+            if not isinstance(g, (ast.GeneratorExp, ast.ListComp)) or len(g.generators) != 1:
+                continue
+            gen = g.generators[0]
+            tests = ' ; '.join(norm_stmt(t) for t in gen.ifs)
+            src = c.resolve(gen.iter)
+            # results filtered for `is not None`, drawn in order from callee(...) over the split alternatives
+            direct = over_split(gen.iter) and callee + '(' in (norm_stmt(g.elt) + tests)
+            staged = isinstance(src, (ast.GeneratorExp, ast.ListComp)) and len(src.generators) == 1 and \
+                over_split(src.generators[0].iter) and callee + '(' in norm_stmt(src.elt)
+            if 'is not None' in tests and (direct or staged):
+                return True
+    return False
 
 
 def _assigned_expr(f, name: str):
